@@ -7,6 +7,8 @@ mod debug;
 mod pool;
 mod scratch;
 mod string;
+#[cfg(feature = "verif-hooks")]
+pub mod verif_hooks;
 
 #[cfg(any(doc, not(debug_assertions)))]
 pub use bump::Arena;
